@@ -27,7 +27,7 @@ func runTreeSetNav[T comparable](c *core.Ctx, d *Dom[T]) {
 		it := ts.Iterator()
 		i := 0
 		for it.Next() {
-			if i >= len(vs) || it.Value() != vs[i] || it.Index() != i {
+			if i >= len(vs) || !identical(it.Value(), vs[i]) || it.Index() != i {
 				c.Fail("order", "iteration-content", "TreeSet iterator yields (%d,%v) at step %d, Values() = %s", it.Index(), it.Value(), i, short(vs))
 			}
 			i++
@@ -55,18 +55,39 @@ func runC02(c *core.Ctx) {
 		runHugeTree(c, h, hugeN(c.Tier), func(m *KVMon[int, int]) { m.Nav = true })
 		return
 	}
+	if j := c.Index - len(exhaustivePlans(c.Tier)) - hugeCases; j >= 0 && j < wideBTreeCases {
+		runWideBTree(c, j, func(m *KVMon[int, int]) { m.Nav = true })
+		return
+	}
 	kind := navKinds[c.Index%len(navKinds)]
-	strKeys := (c.Index/len(navKinds))%5 == 4
+	kt := (c.Index / len(navKinds)) % 10
+	if kt == 8 {
+		c.Count("keytype:struct", 1)
+	} else if kt == 9 {
+		c.Count("keytype:float", 1)
+	}
 	if kind == "TreeSet" {
-		if strKeys {
+		switch kt {
+		case 4:
 			runTreeSetNav(c, StrDom(c.R.Range(4, 14)))
-		} else {
+		case 8:
+			runTreeSetNav(c, StructDom(c.R.Range(4, 24)))
+		case 9:
+			runTreeSetNav(c, FKeyDom(c.R.Range(4, 24)))
+		default:
 			runTreeSetNav(c, IntDom(c.R.Range(4, 40)))
 		}
 		return
 	}
-	if strKeys {
+	switch kt {
+	case 4:
 		runKVCase(c, kind, StrDom(c.R.Range(4, 12)), strKey, func(m *KVMon[string, int]) { m.Nav = true })
+		return
+	case 8:
+		runKVCase(c, kind, StructDom(c.R.Range(4, 14)), structKey, func(m *KVMon[SK, int]) { m.Nav = true })
+		return
+	case 9:
+		runKVCase(c, kind, FKeyDom(c.R.Range(4, 12)), floatKey, func(m *KVMon[float64, int]) { m.Nav = true })
 		return
 	}
 	runKVCase(c, kind, IntDom(c.R.Range(4, 12)), intKey, func(m *KVMon[int, int]) { m.Nav = true })
@@ -81,13 +102,14 @@ func init() {
 		Cases: func(tier string) int { return tierN(tier, 24000, 480000) },
 		Run:   runC02,
 		Rule: "the first cases explore small key universes exhaustively (every reachable tree state x every Put/Remove, see exhaustive_small_scope) under the navigation oracles; the others run " +
-			"the C01 workload families on RedBlackTree, AVLTree, BTree, TreeMap, TreeBidiMap and random Add/Remove histories on TreeSet, with natural, reversed and coarsened comparators over int and string keys. " +
+			"the C01 workload families on RedBlackTree, AVLTree, BTree, TreeMap, TreeBidiMap and random Add/Remove histories on TreeSet, with natural, reversed, coarsened and un-normalised comparators (results of any magnitude up to math.MinInt/MaxInt) over int, string, struct and float64 keys (NaN, +-Inf, +-0 are keys like any other under cmp.Compare). " +
 			"After every call: Keys() (TreeSet/TreeBidiMap Values() under the value comparator) strictly ascending and equal to the sorted model, a full iterator walk equal to it, every extreme accessor (Left/Right, Min/Max, LeftKey/RightKey) against the model, " +
 			"and Floor/Ceiling for every present key, every absent alphabet key, every between-neighbours probe, min-1 and max+1 (all probes while n <= 24, 8 random ones otherwise). " +
 			"Every case is non-trivial (>= 20 mutating calls each followed by these checks); distinct = distinct hash of the call list.",
 		Floors: func(tier string, m map[string]int64) []string {
 			f := &floorCheck{m: m}
 			exhaustiveFloors(tier, f)
+			f.atLeast("obs:wide-btree-cases", wideBTreeCases)
 			f.atLeast("nav:floorceil-between", 10000)
 			f.atLeast("nav:floorceil-on-empty", 1000)
 			f.atLeast("nav:floorceil-exact", 10000)
@@ -96,6 +118,8 @@ func init() {
 			f.atLeast("nav:iteration", 50000)
 			f.atLeast("nav:values-sorted", 5000)
 			f.atLeast("nav:treeset-sorted", 5000)
+			f.atLeast("keytype:float", 500)
+			f.atLeast("keytype:struct", 500)
 			return f.missing
 		},
 		Files: navFiles,
